@@ -2,9 +2,10 @@ from __future__ import annotations
 
 import typing as t
 
+from typelib import codecs
 from typelib.codecs import Codec, DecoderT, EncoderT, codec
 from typelib.marshals import AbstractMarshaller, marshal, marshaller
-from typelib.py import compat, refs
+from typelib.py import compat, inspection, refs
 from typelib.unmarshals import AbstractUnmarshaller, unmarshal, unmarshaller
 
 __all__ = (
@@ -40,6 +41,9 @@ def encode(
         encoder: A callable that takes a value and returns a bytes object.
     """
     marshalled = marshal(value=value, t=t)
+    # Bytes-like types are carried verbatim, as they are by `codec(t)`.
+    if _isbytestype(t if t is not None else value.__class__):
+        return marshalled  # type: ignore[return-value]
     encoded = encoder(marshalled)
     return encoded
 
@@ -57,6 +61,14 @@ def decode(
         value: The value to decode.
         decoder: A callable that takes a bytes object and returns a Python value.
     """
-    decoded = decoder(value)
+    # Bytes-like types are carried verbatim, as they are by `codec(t)`.
+    decoded = value if _isbytestype(t) else decoder(value)
     unmarshalled = unmarshal(t=t, value=decoded)
     return unmarshalled
+
+
+def _isbytestype(t: t.Any) -> bool:
+    # A string reference is resolved on behalf of the calling module.
+    if isinstance(t, str):
+        t = refs.forwardref(t)
+    return inspection.isbytestype(codecs._resolve(t))
